@@ -105,11 +105,11 @@ PROC_SHAPES = {0: [1, 3, 4, 5, 6], 1: [2, 3, 4, 5, 6], 2: [2, 3, 4, 5, 6], 3: [2
 class C12(Prop):
     id = "C12"
     props = "C12_Props"
-    coq_files = ("Base", "C12_Consts", "C12_Model", "C12_Spec", "C12_Proofs", "C12_Props")
+    coq_files = ("Base", "C12_Consts", "C12_Model", "C12_Spec", "C12_Proofs", "C12_ProofsR", "C12_Props")
     models = ("C12_Model",)
-    packages = {"rs": "internal/app/referenceserver"}
+    packages = {"rs": "internal/app/referenceserver", "cc": "internal/app/connectconformance"}
     kinds = {"c12.seq": "rs", "c12.matrix": "rs", "c12.render": "rs", "c12.timeouts": "rs", "c12.wire": "rs",
-             "c12.events": "rs", "c12.live": "rs"}
+             "c12.events": "rs", "c12.live": "rs", "c12.runner": "cc", "c12.runlive": "cc"}
     consts = ("rs",)
     rule = ("c12.matrix: the FULL matrix (in chunks of 36 renderings) of 648 announced set-ups (3 HTTP versions x GET/POST x 3 protocols x 2 codecs x 6 compressions x "
             "TLS off/on/on+client-cert) x 756 client renderings (3 versions x 7 wire shapes x 2 codecs x 6 compressions x 3 TLS modes) = "
@@ -133,13 +133,25 @@ class C12(Prop):
             "(sorted by kind) / whether the RPC handler refused the HTTP version (505); extra: the Go side against a python regular-"
             "expression oracle of the two grammars on ~2400 boundary strings x 3 protocols (independent of the regenerated constants). "
             "Compared: feedback kinds with arguments and prefix, accepted duration in ns, header seen by the inner handler, timeout_ms echoed "
-            "by createRequestInfo. non-trivial = some feedback or an accepted timeout")
+            "by createRequestInfo. "
+            "c12.runner (package connectconformance): the real runTestCasesForServer with a scripted server process and a recording client over batches "
+            "of test cases sharing one server instance: every (codec, compression, GET) of a first case x every one of a second (576 batches of 3, "
+            "the third with a raw request), all 32 instance flag combinations (reference server?, useTLS, useTLSClientCerts, certificate in the "
+            "server's response?, client credentials?) x 3 protocols x 3 HTTP versions with batches of 4, 2500 / 30000 random batches of 1-7 "
+            "(own headers incl. near-misses of the reserved names, raw requests) - per request handed to the client: test name, the complete request "
+            "headers and raw-request headers in order; c12.runlive: such batches (3-6 cases differing in codec / compression / stream type / GET) "
+            "through the real in-process reference client to the real in-process reference server (one per batch; HTTP/1.1 and HTTP/2, plain / TLS / "
+            "TLS + client certificate, 3 protocols): the x-* headers each case was sent with and whether the server wrote feedback about it "
+            "(model: never, for the reference client's rendering). non-trivial = some feedback or an accepted timeout or a sent request")
     trusted_base = ("Coq 8.16.1 kernel (vm_compute used, native_compute not)", "extraction (ExtrOcamlBasic only) + ocaml/driver.ml",
                     "vlib generators/comparator, Go overlay harness (request construction from the record, feedback-kind mapping)",
                     "modelled, sampled by c12.wire / c12.live, not verified: net/http header canonicalisation, url.Values parsing, req.TLS and "
                     "req.Trailer population (HTTP/3 not exercised live); rawResponder, cors, h2c and connect-go are not modelled (the model's "
                     "server = workaround + checks + RPC handler; that the other layers do not touch what the checks read is sampled by c12.live); "
                     "c12.live adds one outermost reporting wrapper to the handler chain (completion signal) and sends an extra id header; "
+                    "the runner model (run_batch) covers the header construction of runTestCasesForServer only (start-up exchange: certificate present or not; "
+                    "process supervision, results and the client's transfer of request headers to the wire = put_headers are sampled by c12.runner / c12.runlive); "
+                    "the reference client sends small GET requests uncompressed, so GET is run live (and claimed for the reference client) under identity only, as in the shipped suites; "
                     "whitespace trimming of header values and connect.ErrorWriter are outside the model; float64 arithmetic of time.Duration.Hours/Minutes/Seconds enters the theorems as hypothesis "
                     "float_quot_ok (within 1 of the truncated quotient, exact on multiples), exercised at the overflow boundaries")
     assumptions = ("requests reach the checks as net/http delivers them (canonical header keys, parsed query)",
@@ -150,7 +162,10 @@ class C12(Prop):
                   "(over the whole finite matrix; the HTTP/1.1-bidi workaround changes what the RPC handler is told, never what is judged), "
                   "flags a request as repeat iff a request of the same test began earlier (all interleavings of begin/end events), flags "
                   "trailers, rejects nameless requests, and accepts a timeout header iff it follows the protocol grammar (all byte strings), "
-                  "with exact/saturating duration, removal and echo; the model is tied to the Go code by the full-matrix, bounded-exhaustive "
+                  "with exact/saturating duration, removal and echo; that every request of every batch the runner sends carries exactly the "
+                  "headers computed from its own test case (any position, any neighbours), which describe that case's set-up, so that the "
+                  "server is silent on it exactly for a client rendering that set-up (the reference client's rendering in particular); "
+                  "the model is tied to the Go code by the full-matrix, bounded-exhaustive "
                   "and live (real createServer) differential run.")
     level_note = ("Trusted: Coq kernel, extraction, OCaml driver, harness; model-code correspondence is tested (full matrix, exhaustive "
                   "short timeout strings, live requests), not proved. The theorems about the matrix range over the 648 x 756 finite domain "
@@ -473,6 +488,84 @@ class C12(Prop):
                     evs.append([1, i])
             yield ["c12.events", evs]
 
+    # ------------------------------------------------------------------
+    # the runner's side: batches of test cases sharing one server instance through the real runTestCasesForServer
+    OWN = [["X-Own", ["v"]], ["x-data-bin", ["AQID", "BA"]], ["X-Own", ["w", ""]], ["accept-thing", []], ["x-expected", ["no"]],
+           ["X-Test-Case-Nam", ["almost"]], ["x-expec", ["t"]]]
+
+    @staticmethod
+    def rcase(name, v, p, c, z, st, get, own=(), raw=None):
+        return [name, v, p, c, z, st, 1 if get else 0, [list(h) for h in own], [] if raw is None else [[list(h) for h in raw]]]
+
+    def gen_runner(self, rng, tier):
+        """c12.runner: scripted server process + recording client.  Instance = (reference server?, useTLS, useTLSClientCerts,
+        certificate in the server's response?, client credentials passed?)."""
+        # 1. bounded-exhaustive: every (codec, compression, GET) of a first case x every (codec, compression, GET) of a second
+        #    one, a third with a raw request behind them - what is carried from one iteration to the next shows here
+        combos = [(c, z, g) for c in (1, 2) for z in range(1, 7) for g in (0, 1)]
+        k = 0
+        for a in combos:
+            for b in combos:
+                k += 1
+                inst = [1, 0, 0, 0, 0] if k % 3 else [1, 1, 1, 1, 1]
+                v = 1 + k % 3
+                yield ["c12.runner", inst, [
+                    self.rcase("s/a", v, 1, a[0], a[1], 1, a[2]),
+                    self.rcase("s/b", v, 1, b[0], b[1], 1, b[2], own=[self.OWN[k % len(self.OWN)]]),
+                    self.rcase("s/c", v, 1, 1 + k % 2, 1 + k % 6, 1, 0, raw=[self.OWN[(k + 1) % len(self.OWN)]])]]
+        # 2. every instance (32) x protocol x version: a batch of four differing in codec / compression / stream type
+        for bits in itertools.product((0, 1), repeat=5):
+            for p in (1, 2, 3):
+                for v in (1, 2, 3):
+                    cs = []
+                    for j in range(4):
+                        st = rng.randint(1, 5)
+                        get = p == 1 and st == 1 and rng.random() < 0.5
+                        cs.append(self.rcase("t/%d" % j, v, p, rng.randint(1, 2), rng.randint(1, 6), st, get,
+                                             own=rng.sample(self.OWN, rng.randint(0, 2)),
+                                             raw=rng.sample(self.OWN, rng.randint(0, 2)) if rng.random() < 0.3 else None))
+                    yield ["c12.runner", list(bits), cs]
+        # 3. random batches of 1-7, names of several shapes, empty batch
+        yield ["c12.runner", [1, 0, 0, 0, 0], []]
+        n = 2500 if tier == "quick" else 30000
+        for _ in range(n):
+            bits = [1 if rng.random() < 0.85 else 0] + [rng.randint(0, 1) for _ in range(4)]
+            p, v = rng.randint(1, 3), rng.randint(1, 3)
+            cs = []
+            for j in range(rng.randint(1, 7)):
+                st = rng.randint(1, 5)
+                get = p == 1 and st == 1 and rng.random() < 0.5
+                cs.append(self.rcase(rng.choice(["s/%d", "Suite/sub/case %d", "%d"]) % j, v, p, rng.randint(1, 2), rng.randint(1, 6),
+                                     st, get, own=rng.sample(self.OWN, rng.randint(0, 3)),
+                                     raw=rng.sample(self.OWN, rng.randint(0, 2)) if rng.random() < 0.25 else None))
+            yield ["c12.runner", bits, cs]
+
+    def gen_runlive(self, rng, tier):
+        """c12.runlive: the same batches through the real in-process reference client to the real in-process reference
+        server (one server per batch): the headers each case was sent with and whether the server wrote feedback."""
+        def batch(v, p, tls, k):
+            cs = []
+            sts = [1, 2, 3, 4] + ([5] if v == 2 else [])
+            for j in range(k):
+                st = sts[j % len(sts)] if j < len(sts) and rng.random() < 0.7 else rng.choice(sts)
+                get = p == 1 and st == 1 and rng.random() < 0.5
+                # (GET under identity only, as in the shipped suites: the reference client leaves small GETs uncompressed)
+                cs.append(self.rcase("live/%d" % j, v, p, rng.randint(1, 2), 1 if get else rng.randint(1, 6), st, get))
+            inst = [1, 1 if tls else 0, 1 if tls == 2 else 0, 1 if tls else 0, 1 if tls == 2 else 0]
+            return ["c12.runlive", inst, cs]
+        # every instance shape that can be run here (HTTP/1.1 and HTTP/2; gRPC needs HTTP/2) x TLS mode
+        shapes = [(v, p, tls) for v in (1, 2) for p in (1, 2, 3) for tls in (0, 1, 2) if not (p == 2 and v == 1)]
+        for v, p, tls in shapes:
+            yield batch(v, p, tls, 4)
+        # Connect GET next to POST under both codecs in one batch (what the first request of a batch must not decide)
+        for v in (1, 2):
+            yield ["c12.runlive", [1, 0, 0, 0, 0], [self.rcase("g/a", v, 1, 1, 2, 1, 0), self.rcase("g/b", v, 1, 2, 1, 1, 1),
+                                                     self.rcase("g/c", v, 1, 1, 1, 1, 1), self.rcase("g/d", v, 1, 2, 4, 3, 0)]]
+        n = 12 if tier == "quick" else 300
+        for _ in range(n):
+            v, p, tls = rng.choice(shapes)
+            yield batch(v, p, tls, rng.randint(3, 6))
+
     def generate(self, rng, tier):
         # chunks of 36 renderings (one version x shape x codec slice): small enough for the shrinker
         for e in range(N_AXES):
@@ -487,6 +580,8 @@ class C12(Prop):
         yield from self.gen_events(rng, tier)
         yield from self.gen_wire(rng, tier)
         yield from self.gen_live(rng, tier)
+        yield from self.gen_runner(rng, tier)
+        yield from self.gen_runlive(rng, tier)
 
 
 PROP = C12()
